@@ -1018,7 +1018,7 @@ fn gen_v(r: &mut Rng, sc: &Sc, fmt: Fmt, key_ok: &dyn Fn(&[u8]) -> bool) -> V {
         Sc::Fixed(n) => V::Bytes(match r.below(3) { 0 => vec![0; *n], 1 => vec![0xFF; *n], _ => r.bytes(*n) }),
         Sc::Enum(n) => V::I(r.below(*n) as i64),
         Sc::DecB { p, .. } | Sc::DecF { p, .. } => {
-            let lim = pow10(*p as u32) - 1;
+            let lim: BigInt = pow10(*p as u32) - 1;
             let mut x = match r.below(7) {
                 0 => lim.clone(), 1 => -lim.clone(), 2 => BigInt::zero(), 3 => BigInt::from(-1), 4 => BigInt::from(r.range(-300, 300)),
                 5 => { // around a byte-length boundary of the two's complement form
@@ -1290,26 +1290,26 @@ pub fn generate(tier: &str, r: &mut Rng, emit: &mut dyn FnMut(Case)) {
         for _ in 0..natoms {
             let k = r.below(16); 
             match k {
-                0 | 1 => { let s: Vec<u8> = gen_string(r, 6).into_iter().filter(|b| *b != b'"' && *b != b'\\').collect(); body.extend(s); kinds.insert("raw") }
-                2 => { body.push(b'\\'); body.push(*r.pick(b"\"\\/bfnrt")); kinds.insert("short") }
+                0 | 1 => { let s: Vec<u8> = gen_string(r, 6).into_iter().filter(|b| *b != b'"' && *b != b'\\').collect(); body.extend(s); kinds.insert("raw"); }
+                2 => { body.push(b'\\'); body.push(*r.pick(b"\"\\/bfnrt")); kinds.insert("short"); }
                 3 | 4 => { // \uXXXX of a BMP scalar value, random hex case
                     let c = loop { let c = match r.below(4) { 0 => r.below(0x80) as u32, 1 => *r.pick(&[0u32, 0x7F, 0x80, 0x7FF, 0x800, 0xD7FF, 0xE000, 0xFFFF, 0xFFFD]), _ => r.below(0x10000) as u32 }; if !(0xD800..0xE000).contains(&c) { break c } };
-                    let s = if r.bool() { format!("\\u{c:04x}") } else { format!("\\u{c:04X}") }; body.extend_from_slice(s.as_bytes()); kinds.insert("u-bmp")
+                    let s = if r.bool() { format!("\\u{c:04x}") } else { format!("\\u{c:04X}") }; body.extend_from_slice(s.as_bytes()); kinds.insert("u-bmp");
                 }
                 5 | 6 | 7 => { // surrogate pair of a scalar value >= U+10000
                     let c = loop { let c = match r.below(3) { 0 => *r.pick(&[0x10000u32, 0x1F600, 0x10FFFF, 0x1FFFF, 0x30000, 0x3FFFF, 0xF0000, 0x100000]), _ => 0x10000 + (r.next() % 0x100000) as u32 };
                         // KNOWN-FINDING candidate: bit-16 class excluded (KF_SURROGATE_BIT16)
                         if !(KF_SURROGATE_BIT16 && ((c - 0x10000) >> 16) & 1 == 1) { break c } };
-                    let v = c - 0x10000; let s = format!("\\u{:04X}\\u{:04x}", 0xD800 + (v >> 10), 0xDC00 + (v & 0x3FF)); body.extend_from_slice(s.as_bytes()); kinds.insert("u-pair")
+                    let v = c - 0x10000; let s = format!("\\u{:04X}\\u{:04x}", 0xD800 + (v >> 10), 0xDC00 + (v & 0x3FF)); body.extend_from_slice(s.as_bytes()); kinds.insert("u-pair");
                 }
-                8 => { let hi = 0xD800 + r.below(0x400) as u32; let s = match r.below(4) { 0 => format!("\\u{hi:04X}"), 1 => format!("\\u{hi:04X}x"), 2 => format!("\\u{hi:04X}\\n"), _ => format!("\\u{hi:04X}\\u{:04X}", r.below(0x10000)) }; body.extend_from_slice(s.as_bytes()); kinds.insert("lone-high") }
-                9 => { let lo = 0xDC00 + r.below(0x400) as u32; let s = if r.bool() { format!("\\u{lo:04X}") } else { format!("\\u{lo:04X}\\u{:04X}", 0xD800 + r.below(0x400)) }; body.extend_from_slice(s.as_bytes()); kinds.insert("lone-low") }
-                10 => { body.push(b'\\'); body.push(*r.pick(b"uxa0U'\n ")); kinds.insert("bad-escape") }
-                11 => { let s = match r.below(4) { 0 => "\\u12", 1 => "\\u12G4", 2 => "\\u 123", _ => "\\u+123" }; body.extend_from_slice(s.as_bytes()); kinds.insert("bad-hex") }
-                12 => { body.extend_from_slice(match r.below(5) { 0 => &[0xC3u8][..], 1 => &[0xE2, 0x82], 2 => &[0xED, 0xA0, 0x80], 3 => &[0xF8], _ => &[0x80] }); kinds.insert("bad-utf8") }
-                13 => { let cp = [0x01u8, 0x0A, 0x0D, 0x09, 0x1F][r.below(5)]; body.push(cp); kinds.insert("raw-ctl") }
-                14 => { if r.chance(1, 4) { body.push(b'\\') } kinds.insert("trail-backslash") }
-                _ => { body.extend_from_slice("\u{1F600}\u{20000}é".as_bytes()); kinds.insert("raw-nonbmp") }
+                8 => { let hi = 0xD800 + r.below(0x400) as u32; let s = match r.below(4) { 0 => format!("\\u{hi:04X}"), 1 => format!("\\u{hi:04X}x"), 2 => format!("\\u{hi:04X}\\n"), _ => format!("\\u{hi:04X}\\u{:04X}", r.below(0x10000)) }; body.extend_from_slice(s.as_bytes()); kinds.insert("lone-high"); }
+                9 => { let lo = 0xDC00 + r.below(0x400) as u32; let s = if r.bool() { format!("\\u{lo:04X}") } else { format!("\\u{lo:04X}\\u{:04X}", 0xD800 + r.below(0x400)) }; body.extend_from_slice(s.as_bytes()); kinds.insert("lone-low"); }
+                10 => { body.push(b'\\'); body.push(*r.pick(b"uxa0U'\n ")); kinds.insert("bad-escape"); }
+                11 => { let s = match r.below(4) { 0 => "\\u12", 1 => "\\u12G4", 2 => "\\u 123", _ => "\\u+123" }; body.extend_from_slice(s.as_bytes()); kinds.insert("bad-hex"); }
+                12 => { body.extend_from_slice(match r.below(5) { 0 => &[0xC3u8][..], 1 => &[0xE2, 0x82], 2 => &[0xED, 0xA0, 0x80], 3 => &[0xF8], _ => &[0x80] }); kinds.insert("bad-utf8"); }
+                13 => { let cp = [0x01u8, 0x0A, 0x0D, 0x09, 0x1F][r.below(5)]; body.push(cp); kinds.insert("raw-ctl"); }
+                14 => { if r.chance(1, 4) { body.push(b'\\') } kinds.insert("trail-backslash"); }
+                _ => { body.extend_from_slice("\u{1F600}\u{20000}é".as_bytes()); kinds.insert("raw-nonbmp"); }
             }
         }
         // no bare quote, and a backslash only ever starts one of the atoms above
